@@ -187,6 +187,15 @@ Theorem C15_terminator_every_script : forall (ct : cty) (ops : list op) (w : wor
 Proof. exact terminator_world. Qed.
 Print Assumptions C15_terminator_every_script.
 
+(* std::move(s) of a basic_string is a COPY (no move constructor / move assignment is declared): basic_string
+   t(std::move(s)) yields the source's text in a fresh buffer on top of the unchanged memory; the source is untouched,
+   so C15_terminator_every_script also covers every "moved-from" string *)
+Theorem C15_move_is_copy : forall w k x, fresh (wst w) -> str_ok (smem (wst w)) x -> get_str w k = Some x ->
+  exists r s', do_op w (OSMoveCtor k) (wst w) = (Ok (src_out k x s', FNewStr r), s') /\
+               constructed (wst w) (txt (smem (wst w)) x) (within (str_view x)) r s'.
+Proof. exact move_ctor_is_copy. Qed.
+Print Assumptions C15_move_is_copy.
+
 (* ===== C15_reads_in_bounds: a read range that lies within a valid view lies inside its buffer; all the
    operations above confine their reads to [within] their source views / own buffer (the B argument) ===== *)
 Theorem C15_reads_in_bounds : forall m v r, valid_view m v -> within v r ->
@@ -270,3 +279,9 @@ Example C15_ex_wide :   (* char16_t: two views that agree in their first element
   (exists w, run_ops (world0 char32_t) [OBuf [97; 65633]; OSPtrLen 0 0 2; OSAppC 0 0; OSHash 0] = Some w /\
              map (fun o => match o with Some x => Some (slen x) | None => None end) (wstrs w) = [Some 3]).
 Proof. repeat split; try (vm_compute; reflexivity). eexists. split; vm_compute; reflexivity. Qed.
+
+Example C15_ex_move :   (* move-construct, move-assign (also onto itself), pass by value, then keep using the source *)
+  exists w, run_ops (world0 char_t) [OBuf [97; 98; 0]; OSCstr 0 0; OSMoveCtor 0; OSMoveAssign 1 0; OSMoveAssign 0 0; OSByVal 0;
+                                     OSAppC 0 99; OSResize 0 1 205; OSCopy 0; OSDel 0; OTraits] = Some w /\
+            map (fun o => match o with Some x => Some (slen x) | None => None end) (wstrs w) = [None; Some 2; Some 1].
+Proof. eexists. split; vm_compute; reflexivity. Qed.
